@@ -92,6 +92,58 @@ def _no_cached_readers(ctx):
     ctx.note(f"{n_c} memoised functions examined")
 
 
+def _model_tables_not_edited(ctx):
+    """a model's declared lists (parameter_keys, parameter_anc_keys, ...)
+    are read-only after registration: a method that edits one in place
+    (directly or through a local alias) changes the model for every later
+    call - names, units and ancillary keys no longer belong together"""
+    from .. import effects
+    core = ctx.repo.mod("model.core")
+    n = 0
+    for q, f in core.funcs.items():
+        if not q.startswith("NaniteFitModel.") or q.endswith((
+                ".__init__", "._module_autocomplete", "._module_check")):
+            continue
+        roots = {}
+        for st in walk_no_nested(f, False):
+            if isinstance(st, ast.Assign) and len(st.targets) == 1 and \
+                    isinstance(st.targets[0], ast.Name) and isinstance(
+                    st.value, ast.Attribute) and isinstance(
+                    st.value.value, ast.Name) and st.value.value.id == \
+                    "self" and st.value.attr.startswith(("parameter_",
+                                                         "valid_axes")):
+                roots[st.targets[0].id] = f"self.{st.value.attr}"
+        for c in ast.walk(f):
+            if isinstance(c, ast.Call) and isinstance(
+                    c.func, ast.Attribute) and c.func.attr in MUTATORS | {
+                        "insert", "append", "extend", "remove", "sort",
+                        "reverse"} and isinstance(
+                    c.func.value, ast.Attribute) and isinstance(
+                    c.func.value.value, ast.Name) and \
+                    c.func.value.value.id == "self" and \
+                    c.func.value.attr.startswith(("parameter_",
+                                                  "valid_axes")):
+                n += 1
+                ctx.fail(c, f"{q}: {norm(c)[:50]}",
+                         f"{q} edits the model's own "
+                         f"`{c.func.value.attr}` in place")
+        if not roots:
+            continue
+        amap = effects.alias_map(f, roots)
+        for node, root, how in effects.mutations(f, amap):
+            n += 1
+            ctx.fail(node, f"{q}: {how[:60]}",
+                     f"{q} edits the model's own list `{roots.get(root, root)}` "
+                     f"in place ({how[:80]}): after one call the model's "
+                     "declared keys contain entries that belong to the "
+                     "common table - names/units are looked up at the "
+                     "wrong index and computing the ancillaries raises "
+                     "KeyError")
+    if not n:
+        ctx.ok(core.cls("NaniteFitModel"), "model methods leave the "
+               "declared lists alone")
+
+
 def r1_registry_writers(ctx):
     repo = ctx.repo
     logic = repo.mod("model.logic")
@@ -125,8 +177,19 @@ def r1_registry_writers(ctx):
                         and isinstance(n.ctx, (ast.Store, ast.Del)):
                     writers.append((m, "<module>", None, n))
     _no_cached_readers(ctx)
+    _model_tables_not_edited(ctx)
     ctx.floor("writers of models_available", len(writers), 2)
     for m, q, f, n in writers:
+        if isinstance(n, (ast.Assign, ast.AugAssign)) and any(
+                isinstance(t, ast.Name) for t in (
+                    n.targets if isinstance(n, ast.Assign) else [n.target])):
+            ctx.fail(n, f"registry re-bound: {norm(n)[:50]}",
+                     f"{m.relpath}:{q} re-binds the name models_available "
+                     "to a new dictionary: every module that imported the "
+                     "registry (nanite.model, fit, indent, the CLI) keeps "
+                     "the old object - later registrations are invisible "
+                     "there and a deregistered key stays available")
+            continue
         allowed = (m.name == "model.logic"
                    and q in ("register_model", "deregister_model"))
         ctx.check(allowed, n, f"writer {norm(n)}",
